@@ -45,7 +45,7 @@ def execute(case):
     os.makedirs(wd, exist_ok=True)
     try:
         raw, info = rsession.build(case["shape"], seed=case.get("seed", 0), password=case.get("password"), coder=case.get("coder", "lzma2"),
-                                   header=case.get("header", "lzma"))
+                                   header=case.get("header", "lzma"), packcrc=case.get("packcrc", False))
         return rsession.run_calls(py7zr, raw, case["shape"], info, case["calls"], target=case.get("target", "stream"),
                                   password=case.get("password"), ending=case.get("ending", "close"), workdir=wd)
     finally:
